@@ -1,6 +1,7 @@
 """C16 — diagnostics and run-time messages cite the source line that caused them."""
 from asm import GramEval
 from astev import Str, Num, tmpl_str
+import re
 import mir as M
 from driver_rules import trace_value, find_parse_call
 
@@ -28,6 +29,10 @@ def run(ctx, chk):
     chk.rule("C16.R5", "while the source is locked (macro expansion) the recorded source position cannot change", floor=1)
     chk.rule("C16.R7", "position lookups are functions of the position alone (their objects hold no interior-mutable state)", floor=1)
     position_lookup_rule(ctx, chk)
+    chk.rule("C16.R9", "a column is the offset of the position in its line: position - line start", floor=1)
+    column_rule(ctx, chk)
+    chk.rule("C16.R10", "a position the assembler records for a later report is a position in the source, also inside a macro expansion", floor=1)
+    recorded_position_rule(ctx, chk, GA, E)
     for nt_data in GA.g["nonterminals"]:
         nt = nt_data["name"]
         for k, p in enumerate(nt_data["productions"]):
@@ -371,3 +376,156 @@ def position_lookup_rule(ctx, chk):
                               witness="two lookups in descending order of position")
             else:
                 chk.ok("C16.R7", f"{short}({core.split('::')[-1]})", "shared receiver, Freeze type: the answer depends on the position and the immutable table only")
+
+
+def column_rule(ctx, chk):
+    """C16.R9.  A function that turns a position into (line, line start, line end) is recognised by its shape: a local
+    function `(&T, usize) -> (usize, usize, usize)`.  In every caller the three results and the position argument are
+    followed through copies, borrows and dereferences (a may-analysis over locals); every subtraction between two of them is
+    classified.  `position - start` is the column; `end - start` is the length of the line; anything else that involves the
+    position (`end - position`, `start - position`) is not a column of the offending token and, for `start - position`,
+    underflows for every position that is not the first of its line."""
+    P = ctx.program
+    n = 0
+    for which in ("bin", "lib"):
+        m = ctx.facts.mir(which)
+        sigs = {s_["name"]: s_ for s_ in m["sigs"]}
+        for f in m["fns"]:
+            file = f["span"].rsplit(":", 2)[0]
+            unit = f["name"].split("::")[-1]
+            calls = []
+            for bi, t in M.calls_in(f):
+                if not t[1].get("local") or len(t[2]) != 2:
+                    continue
+                if (t[3].get("ty") or "").replace(" ", "") != "(usize,usize,usize)" or (t[2][1][1].get("ty") if t[2][1][0] != "const" else "usize") != "usize":
+                    continue
+                calls.append((bi, t))
+            if not calls:
+                continue
+            for bi, t in calls:
+                res = t[3]["l"]
+                tags = {}   # local -> set of roles ("pos", "line", "start", "end"); a pointer to a tagged value carries the tag
+
+                def add(l, r):
+                    s0 = tags.setdefault(l, set())
+                    if r not in s0:
+                        s0.add(r)
+                        return True
+                    return False
+                stm = [(b_i, s_) for b_i, b in enumerate(f["blocks"]) for s_ in b.get("stmts", []) if s_[0] == "assign"]
+                # backward: where the position argument came from
+                if t[2][1][0] != "const":
+                    add(t[2][1][1]["l"], "pos")
+                changed = True
+                while changed:
+                    changed = False
+                    for b_i, s_ in stm:
+                        dst, rv = s_[1], s_[2]
+                        if dst["p"] or "pos" not in tags.get(dst["l"], ()):
+                            continue
+                        src = None
+                        if rv[0] == "use" and rv[1][0] in ("copy", "move") and all(x == "deref" for x in rv[1][1]["p"]):
+                            src = rv[1][1]["l"]
+                        elif rv[0] == "ref" and all(x == "deref" for x in rv[1]["p"]):
+                            src = rv[1]["l"]
+                        if src is not None and add(src, "pos"):
+                            changed = True
+                # forward
+                changed = True
+                while changed:
+                    changed = False
+                    for b_i, s_ in stm:
+                        dst, rv = s_[1], s_[2]
+                        if dst["p"]:
+                            continue
+                        src, proj = None, None
+                        if rv[0] == "use" and rv[1][0] in ("copy", "move"):
+                            src, proj = rv[1][1]["l"], rv[1][1]["p"]
+                        elif rv[0] == "ref":
+                            src, proj = rv[1]["l"], rv[1]["p"]
+                        if src is None:
+                            continue
+                        if src == res and len(proj) == 1 and isinstance(proj[0], list) and proj[0][0] == "f":
+                            if add(dst["l"], ("line", "start", "end")[proj[0][1]] if proj[0][1] < 3 else "?"):
+                                changed = True
+                        elif all(x == "deref" for x in proj):
+                            for r in list(tags.get(src, ())):
+                                if add(dst["l"], r):
+                                    changed = True
+                # subtractions
+
+                def roles(op):
+                    if op[0] == "const":
+                        return set()
+                    return tags.get(op[1]["l"], set()) if all(x == "deref" for x in op[1]["p"]) else set()
+                subs = []
+                for b_i, s_ in stm:
+                    rv = s_[2]
+                    if rv[0] in ("binop", "checked") and len(rv) >= 4 and str(rv[1]).startswith("Sub"):
+                        subs.append((b_i, rv[2], rv[3], s_[3] if len(s_) > 3 else None))
+                for b_i, t2 in M.calls_in(f):
+                    d = t2[1].get("def") or ""
+                    if re.search(r"ops::Sub<.*>>::sub$|::wrapping_sub$|::checked_sub$|::saturating_sub$|::overflowing_sub$", d) and len(t2[2]) == 2:
+                        subs.append((b_i, t2[2][0], t2[2][1], f["blocks"][b_i]["term"].get("line")))
+                for b_i, a, b, line in subs:
+                    ra, rb = roles(a) & {"pos", "start", "end"}, roles(b) & {"pos", "start", "end"}
+                    if not ra or not rb or len(ra) > 1 or len(rb) > 1:
+                        continue
+                    pair = (next(iter(ra)), next(iter(rb)))
+                    n += 1
+                    if pair == ("pos", "start"):
+                        chk.ok("C16.R9", f"{unit}@bb{b_i}", "column = position - line start")
+                    elif pair == ("end", "start"):
+                        chk.ok("C16.R9", f"{unit}@bb{b_i}", "length of the line", nontrivial=False)
+                    elif "pos" in pair:
+                        chk.violation("C16.R9", unit, f"column-is-{pair[0]}-minus-{pair[1]}",
+                                      f"{f['name']} computes `{pair[0]} - {pair[1]}` from the results of the line lookup: the column of the offending token is `position - line start`; "
+                                      f"this value is the distance to the {'end' if 'end' in pair else 'start'} of the line" +
+                                      (" and underflows for a token that is not first in its line" if pair == ("start", "pos") else ""), f"{file}:{line}")
+    chk.extra["columns"] = n
+
+
+def recorded_position_rule(ctx, chk, GA, E):
+    """C16.R10.  Besides the source map, the assembler hands positions to the driver inside records it keeps in its context
+    (forward references).  Every instruction production can be reached inside a macro expansion, where lookarounds are
+    offsets into the expanded text; such a record therefore may not contain a bare lookaround.  Accepted: a value obtained
+    from the source mapper by a method that consults the lock (the mapper knows the position of the outermost use)."""
+    import json as _json
+    helpers = [h for h in (GA.g.get("helpers") or []) if h.get("kind") != "const"]
+
+    def lock_aware(method):
+        for h in helpers:
+            if h.get("name") == method and "lock" in _json.dumps(h.get("body") or h.get("expr") or "") and "source_last" in _json.dumps(h.get("body") or h.get("expr") or ""):
+                return True
+        return False
+    seen = 0
+    for nt_data in GA.g["nonterminals"]:
+        nt = nt_data["name"]
+        for k, p in enumerate(nt_data["productions"]):
+            ua = GA.main_user_action(p["action"])
+            if ua["kind"] != "user" or "undefined_labels" not in (ua.get("code") or ""):
+                continue
+            label = GA.prod_label(nt, k)
+            where = f"{GA.g['file']}:{p['line']}"
+            for path in E.prod_paths(nt, k):
+                if getattr(path, "action", None) != ua["idx"]:
+                    continue
+                for i, e in enumerate(path.effects):
+                    if not (e.kind == "map" and e.target == "context.undefined_labels" and e.op in ("insert", "push")):
+                        continue
+                    seen += 1
+                    comps = []
+                    for a in e.args:
+                        comps.extend(a.elems if getattr(a, "k", None) == "tup" else [a])
+                    raw = [c for c in comps if isinstance(c, Num) and c.poly and all(isinstance(t_, tuple) and t_ and all(str(x_).startswith(("@L", "@R")) for x_ in t_) for t_ in c.poly)]
+                    via = [x for x in path.effects[:i] if x.kind == "mapper" and x.op not in ("add_entry", "set_source", "lock_source", "unlock_source")]
+                    if raw:
+                        chk.violation("C16.R10", label, "recorded-position-relative-to-expansion",
+                                      f"{label}: the forward-reference record keeps the production's own lookaround; inside a macro expansion that is an offset into the expanded text, "
+                                      f"so the driver's 'used but not defined' report cites whatever source line lies at that offset (or leaves the text: `end - pos` underflows)", where)
+                    elif via and all(lock_aware(x.op) for x in via):
+                        chk.ok("C16.R10", f"{label}:record", f"position obtained through SourceMapper::{via[0].op}, which answers with the outermost use while the source is locked")
+                    else:
+                        chk.undecided_("C16.R10", f"{label}:record", "origin of the recorded position not recognised")
+    if not seen:
+        chk.undecided_("C16.R10", "records", "no forward-reference record found in the assembler actions")
